@@ -688,7 +688,8 @@ class Tifa(TifaCore, ast.NodeVisitor):
             with function_scope:
                 # Process arguments
                 if len(arguments) + len(named_arguments) != len(pos_parameters) and not vararg_parameter:
-                    self._issue(incorrect_arity(self.locate(), function_name,
+                    # (an anonymous function still needs a name to be talked about)
+                    self._issue(incorrect_arity(self.locate(), function_name if function_name is not None else "lambda",
                                                 len(pos_parameters), len(arguments), report=self.report))
                 for parameter, default, argument in zip(pos_parameters, pos_defaults, arguments):
                     parameter_name = parameter.arg
